@@ -189,7 +189,11 @@ package parser
 //@ func (parser.Config).Parse
 //@ props C06 C05 C07 C01
 //@ panics nothing
-//@ assigns *
+//@ ensures one: (result1 == nil) != (result0 == nil)
+// ASSUMED, not proved (the parser appends through a pointer whose target the model does not
+// track): parsing allocates its tree and leaves every existing slice, render tree and writer alone
+//@ assumes-post tree: @tree && sameold("S$Int") && sameold("M$has$Str$Int") && sameold("M$val$Str$Int") && sameold("M$has$Str$Fn") && sameold("M$val$Str$Fn")
+//@ assumes-post silent: wunchanged()
 //@ ghost perr Val = nil
 //@ ghost pnode Val = nil
 //@ at call parseTokens #1: pnode = result0
